@@ -340,7 +340,8 @@ class BaseProject(object, metaclass=ABCMeta):
                 )
             
             # Update state of task newly allocated workers and facilities (READY -> WORKING)
-            self.workflow.check_state(self.time, BaseTaskState.WORKING)
+            if working or perform_auto_task_while_absence_time:
+                self.workflow.check_state(self.time, BaseTaskState.WORKING)
             self.product.check_state()  # product should be checked after checking workflow state
             _verif_notify(self, "allocated")
 
